@@ -53,7 +53,7 @@ func (f *failWriter) Write(p []byte) (int, error) {
 }
 
 // entry points that copy what they decode (the others borrow the caller's bytes by contract)
-var copying = map[string]bool{"readfrom": true, "readfromck": true, "must": true, "unmarshal": true, "base64": true}
+var copying = map[string]bool{"readfrom": true, "readfromck": true, "must": true, "mustck": true, "unmarshal": true, "base64": true}
 
 func optInt(a []string, key string, def int) int {
 	for _, s := range a {
@@ -99,6 +99,18 @@ func decodeInto(e *env, y *roaring.Bitmap, entry string, data []byte, chunk int)
 		cr := &chunkReader{data: data, chunk: chunk}
 		n, err = y.MustReadFrom(cr)
 		pulled = cr.off
+	case "mustck":
+		// MustReadFrom with the cookie handed over separately (same accounting as readfromck)
+		k := len(data)
+		if k > 4 {
+			k = 4
+		}
+		cr := &chunkReader{data: data[k:], chunk: chunk}
+		n, err = y.MustReadFrom(cr, data[:k]...)
+		if err == nil {
+			n += int64(k)
+		}
+		pulled = cr.off + k
 	case "frombuffer":
 		n, err = y.FromBuffer(data)
 	case "fromunsafe":
